@@ -182,6 +182,7 @@ func runC16(a *A) {
 			a.Check(bad == "", fmt.Sprintf("%s#keep[matched=%v,left=%v]", fname(ej), cs.m, cs.left), ej.Pos(), cs.what, cs.what+" — violated: "+bad)
 		}
 	})
+	a.Rule("flow/null-key-never-looked-up", 1, func() { a.ruleNullKeyNeverLookedUp() })
 	a.Rule("flow/alias-default-before-use", 1, func() { a.ruleAliasDefaultBeforeUse() })
 	a.Rule("flow/table-source-resolved-per-use", 2, func() { a.ruleTableSourceResolvedPerUse() })
 	a.Rule("flow/join-result-per-iteration", 4, func() { a.ruleJoinResultPerIteration() })
@@ -744,4 +745,106 @@ func (a *A) helpersOf(fn *ssa.Function) []*ssa.Function {
 		}
 	})
 	return out
+}
+
+// ruleNullKeyNeverLookedUp: NULL = NULL is not true: a stream row whose ON key has a NULL or missing
+// component matches no table row, whatever the table source is (TableSource is an interface users
+// implement, and a source indexes rows with a NULL key column under some key of its own). The engine
+// must therefore not ask the source at all: in enrichJoin (and the package helpers it calls) every
+// TableSource.Lookup is unreachable on a path on which a key component was found nil. A rule applied
+// inside one source, on the encoded key, covers neither composite keys whose encoding frames the
+// component nor other sources.
+func (a *A) ruleNullKeyNeverLookedUp() int {
+	ej := a.Method("stream", "Stream", "enrichJoin")
+	sfv := a.FuncOpt("stream", "streamFieldValue")
+	n := 0
+	for _, h := range append([]*ssa.Function{ej}, a.helpersOf(ej)...) {
+		var lookups []ssa.Instruction
+		allInstrs(h, func(in ssa.Instruction) {
+			if c, ok := in.(*ssa.Call); ok && c.Call.IsInvoke() && c.Call.Method.Name() == "Lookup" {
+				lookups = append(lookups, in)
+			}
+		})
+		if len(lookups) == 0 {
+			continue
+		}
+		// nil tests of key components: interface values compared with nil that come from the row
+		// (streamFieldValue, a map lookup) or are read back from the key slice
+		var tests []*ssa.If
+		for _, b := range h.Blocks {
+			iff, ok := b.Instrs[len(b.Instrs)-1].(*ssa.If)
+			if !ok {
+				continue
+			}
+			x, _, isNT := nilTest(iff.Cond)
+			if !isNT {
+				continue
+			}
+			if _, isIface := x.Type().Underlying().(*types.Interface); !isIface {
+				continue
+			}
+			fromRow := false
+			for _, l := range phiLeaves(x) {
+				switch y := l.(type) {
+				case *ssa.Extract:
+					if c, ok := y.Tuple.(*ssa.Call); ok && (sfv == nil || c.Call.StaticCallee() == sfv || c.Call.StaticCallee() != nil) {
+						fromRow = true
+					}
+					if _, ok := y.Tuple.(*ssa.Lookup); ok {
+						fromRow = true
+					}
+				case *ssa.UnOp:
+					if _, ok := y.X.(*ssa.IndexAddr); ok {
+						fromRow = true // key[i]
+					}
+				case *ssa.Lookup:
+					fromRow = true
+				}
+			}
+			if fromRow {
+				tests = append(tests, iff)
+			}
+		}
+		for _, lk := range lookups {
+			lk := lk
+			n++
+			construct := fname(h) + "#lookup-only-with-complete-key"
+			if len(tests) == 0 {
+				a.Bad(construct, lk.Pos(), "the table source is asked without the key components having been tested for NULL: whether a NULL key matches is left to each source (the memory table indexes rows with a NULL key column too, so NULL would equal NULL for composite keys)")
+				continue
+			}
+			bad := false
+			// the key of one lookup is built afresh for every JOIN: a path that allocates the next key
+			// has left the lookup the tested component belongs to
+			newKey := map[ssa.Instruction]bool{}
+			for _, l := range phiLeaves(lk.(*ssa.Call).Call.Args[0]) {
+				if mi, ok := l.(*ssa.MakeInterface); ok {
+					l = mi.X
+				}
+				if in, ok := l.(ssa.Instruction); ok {
+					if _, isMS := l.(*ssa.MakeSlice); isMS {
+						newKey[in] = true
+					}
+				}
+			}
+			for _, t := range tests {
+				t := t
+				_, nilWhenTrue, _ := nilTest(t.Cond)
+				if pathFromTo(t, func(x ssa.Instruction) bool { return x == lk }, func(v ssa.Value) Tri {
+					if v == t.Cond {
+						return tri(nilWhenTrue) // this component is nil
+					}
+					return U
+				}, func(x ssa.Instruction) bool { return newKey[x] }) {
+					bad = true
+				}
+			}
+			a.Check(!bad, construct, lk.Pos(), "Lookup is unreachable once a key component was found NULL",
+				"TableSource.Lookup can be reached although a key component was found NULL: the row is matched against whatever the source keeps under that key, where SQL says a NULL key matches nothing")
+		}
+	}
+	if n == 0 {
+		a.anchorFail("no TableSource.Lookup call found in enrichJoin or its helpers")
+	}
+	return n
 }
